@@ -1170,11 +1170,53 @@ class Interp:
                     if not st.decide(z3.And(0 <= i, i < ln)):
                         self.raise_(st, "IndexError", node)
                 return self.elem_val(st, kd, z3.Select(self.list_items(st, obj), i), z3.And(0 <= i, i < ln))
+            if kd.kind == "set" and is_ref(strip_opt(kd.K)) and strip_opt(kd.K)[1] in REG.heap_key:
+                return self.heap_peek(st, obj, idx, node)
             fi = self.find_method(base[1], "__getitem__")
             if fi is not None:
                 from . import calls
                 return calls.call_repo(self, st, fi, [obj, idx], {}, node)
         raise Unsupported("subscript on %s (line %s)" % (ty_str(obj.ty), getattr(node, "lineno", "?")))
+
+    def heap_key_of(self, st, kd, ref_term):
+        cls = strip_opt(kd.K)[1]
+        attr = REG.heap_key[cls]
+        fty = self.field_type(cls, attr)
+        arr = st.cur_heap_get(self.field_key(attr, fty), sort_of(strip_opt(fty)))
+        return z3.Select(arr, ref_term)
+
+    def heap_min(self, st, obj, node=None):
+        """an element with a minimal key (assumed heapq contract: index 0 of a heap list / heappop)"""
+        kd = self.kd_of(obj)
+        dom = self.dom_of(st, obj)
+        ks = sort_of(kd.K)
+        if st.spec_depth == 0 and not st.decide(dom != z3.K(ks, FALSE)):
+            self.raise_(st, "IndexError", node)
+        r = st.fresh(ks, "heapmin")
+        st.assume(z3.Select(dom, r))
+        o = z3.FreshConst(ks, "o")
+        st.assume(z3.ForAll([o], z3.Implies(z3.Select(dom, o), self.heap_key_of(st, kd, r) <= self.heap_key_of(st, kd, o))))
+        v = Val(kd.K, r)
+        st.assume_type_inv(v)
+        return v
+
+    def heap_peek(self, st, obj, idx, node=None):
+        iv = z3.simplify(idx.term)
+        if z3.is_int_value(iv) and iv.as_long() == 0:
+            return self.heap_min(st, obj, node)
+        if z3.is_int_value(iv) and iv.as_long() == -1:
+            # the last slot of a heap list is *some* element (any leaf): no ordering guarantee
+            kd = self.kd_of(obj)
+            dom = self.dom_of(st, obj)
+            ks = sort_of(kd.K)
+            if st.spec_depth == 0 and not st.decide(dom != z3.K(ks, FALSE)):
+                self.raise_(st, "IndexError", node)
+            r = st.fresh(ks, "heaplast")
+            st.assume(z3.Select(dom, r))
+            v = Val(kd.K, r)
+            st.assume_type_inv(v)
+            return v
+        raise Unsupported("index into a heap list other than [0] / [-1]")
 
     def set_item(self, st, obj, idx, val, node=None):
         base = strip_opt(obj.ty)
